@@ -29,6 +29,7 @@ func c15(c *Ctx) {
 	c15items(c)
 	c15sums(c)
 	c15values(c)
+	c15selfItemError(c)
 
 	entries := map[string]*ssa.Function{}
 	for _, n := range []string{"ValidAddQuota", "ValidUpdateQuota", "ValidDeleteQuota"} {
